@@ -10,7 +10,11 @@ theorems, not definitions — and the full statement is false on raw `Value`s (`
 
 Domain `Value.inS` (decidable, AgProofs/Lemmas/ValueOrder.lean): values whose numbers are
 normalised the way `Value::from_float` leaves them — a `float` never holds an integer of the i64
-range — with integers within ±2^53; recursively through arrays and objects.
+range — and whose integers are i64s (the model's `Int` is mathematical; the range is part of the
+Rust type); recursively through arrays and objects.  Before the `cmp_int_float` repair of
+src/data.rs (exact `Int` against `Float` comparison instead of `i as f64`) the integers had to be
+confined to ±2^53: beyond, none of `<`, `==`, `>` held between an integer and the double it
+rounds to (`C05_int_float_trichotomy` and the two regression examples below).
 -/
 import AgModel.Eval
 import AgProofs.Lemmas.FromFloat
@@ -143,12 +147,80 @@ theorem C05_array_trichotomy_partial {a b : List Value} (ha : inSL a) (hb : inSL
 example : lt (arr [int 1, str "a"]) (arr [int 1, str "b"]) = true ∧
     eq (arr [int 1, str "a"]) (arr [int 1, str "b"]) = false ∧
     inSL [int 1, str "a"] = true := by
-  refine ⟨?_, ?_, by simp [inSL, inS, two53]⟩
+  refine ⟨?_, ?_, by decide⟩
   · simp [lt, cmpResult, cmpL_cons_cons, cmpL_nil_nil, cmp]; decide
   · simp [eq, cmpResult, BEq.beq, beq, beqL]
 
-/-- non-vacuity: the domain has every scalar kind, ints and non-integral / non-finite floats -/
-example : inS .none ∧ inS (.bool true) ∧ inS (.int (-9007199254740992)) ∧ inS (.float half) ∧
+/-- an `Int` against a normalised `Float`: exactly one of `<`, `>` holds, `==` never does, and
+`cmp` is never `Equal` — for EVERY i64, the ones beyond ±2^53 included (the former defect: there
+`i as f64` rounds, `cmp` said `Equal` while `==` said no, and none of the three held) -/
+theorem C05_int_float_trichotomy {i : Int} {f : F64} (hi : inI64 i = true)
+    (hf : normFloat f = true) :
+    ExactlyOne (lt (int i) (float f)) (eq (int i) (float f)) (gt (int i) (float f)) ∧
+    ExactlyOne (lt (float f) (int i)) (eq (float f) (int i)) (gt (float f) (int i)) ∧
+    eq (int i) (float f) = false ∧ eq (float f) (int i) = false ∧
+    cmp (int i) (float f) ≠ .eq ∧ cmp (float f) (int i) ≠ .eq ∧
+    (cmp (int i) (float f) = .lt ∨ cmp (int i) (float f) = .gt) := by
+  have ha : inS (int i) = true := by simpa [inS] using hi
+  have hb : inS (float f) = true := by simpa [inS] using hf
+  have h1 : cmp (int i) (float f) ≠ .eq := by
+    simp only [cmp]; exact cmpIntFloat_ne_eq_norm hi hf
+  have h2 : cmp (float f) (int i) ≠ .eq := by
+    rw [← cmp_swap]; intro h; apply h1; cases hc : cmp (int i) (float f) <;> simp_all
+  refine ⟨(C05_trichotomy_partial ha hb).1, (C05_trichotomy_partial hb ha).1, ?_, ?_, h1, h2, ?_⟩
+  · simp [eq, cmpResult, BEq.beq, beq]
+  · simp [eq, cmpResult, BEq.beq, beq]
+  · cases hc : cmp (int i) (float f) <;> simp_all
+
+/-- i64::MAX against the double 2^63 (what `9223372036854775807 + 1` evaluates to) -/
+def two63 : F64 := fin false two52 11
+/-- −2^63 − 2048, the next double below −2^63 = i64::MIN -/
+def belowMin : F64 := fin true (two52 + 1) 11
+
+/-- regression, witness 1 of the former defect: `a = 9223372036854775807`, `r = a + 1` (the double
+2^63): now `a < r`, `r > a`, and not `==` — before the repair all three were false -/
+example : lt (int 9223372036854775807) (float two63) = true ∧
+    eq (int 9223372036854775807) (float two63) = false ∧
+    gt (int 9223372036854775807) (float two63) = false ∧
+    lt (float two63) (int 9223372036854775807) = false ∧
+    eq (float two63) (int 9223372036854775807) = false ∧
+    gt (float two63) (int 9223372036854775807) = true ∧
+    inS (int 9223372036854775807) = true ∧ inS (float two63) = true := by
+  simp only [lt, eq, gt, cmpResult, BEq.beq, beq, cmp]
+  decide
+
+/-- regression, witness 2: 2^53 + 1 against the doubles around it.  Every double of magnitude
+≥ 2^52 is an integer (2^53 + 0.5 is not a double), so the neighbours 2^53 and 2^53 + 2 are raw,
+un-normalised `Float`s (`from_float` makes them `Int`s) and only the ORDER is stated for them:
+2^53 + 1 lies strictly between — before the repair `cmp` called it `Equal` to 2^53.  Normalised
+`Float`s of that size start at ±2^63: i64::MIN against the next double below −2^63. -/
+example : cmp (int 9007199254740993) (float (fin false two52 1)) = .gt ∧
+    cmp (int 9007199254740993) (float (fin false (two52 + 1) 1)) = .lt ∧
+    cmp (float (fin false two52 1)) (int 9007199254740993) = .lt ∧
+    gt (int (-9223372036854775808)) (float belowMin) = true ∧
+    eq (int (-9223372036854775808)) (float belowMin) = false ∧
+    lt (int (-9223372036854775808)) (float belowMin) = false ∧
+    inS (float belowMin) = true := by
+  simp only [lt, eq, gt, cmpResult, BEq.beq, beq, cmp]
+  decide
+
+/-- why `inS` asks an `Int` to be an i64: the model's integers are mathematical, and 2^63 (not an
+i64) is `Equal` to — but not `==` — the normalised `Float` 2^63 -/
+example : cmp (int 9223372036854775808) (float two63) = .eq ∧
+    eq (int 9223372036854775808) (float two63) = false ∧
+    inI64 9223372036854775808 = false := by
+  simp only [eq, cmpResult, BEq.beq, beq, cmp]
+  decide
+
+/-- non-vacuity of `C05_int_float_trichotomy` at the extremes -/
+example : cmp (int 9223372036854775807) (float two63) = .lt :=
+  ((C05_int_float_trichotomy (i := 9223372036854775807) (f := two63) (by decide)
+      (by decide)).2.2.2.2.2.2).resolve_right (by simp only [cmp]; decide)
+
+/-- non-vacuity: the domain has every scalar kind, ints (every i64) and non-integral / non-finite
+floats -/
+example : inS .none ∧ inS (.bool true) ∧ inS (.int (-9223372036854775808)) ∧
+    inS (.int 9223372036854775807) ∧ inS (.float half) ∧
     inS (.arr [.float half, .obj [("k", .int 1)]]) ∧
     inS (.float nan) ∧ inS (.float (inf true)) ∧ inS (.str "a") ∧ inS (.date 0) ∧ inS (.dur 1) ∧
     ¬ inS (.float one) := by decide
